@@ -442,18 +442,21 @@ def run(ctx):
         'pformat/eval and deepcopy are the identity on the model; checked dynamically (plain data, eval(pformat(d)) == d)',
     ]
     ctx.assumptions += [
-        'model variant [repaired]: proposed_fixes/C13-numeric-enums-default.diff, C13-group-defaults.diff, '
+        'model variant [repaired]: proposed_fixes/C13-numeric-enums-default.diff, C03-group-default-preprocess.diff, '
         'C19-boolean-default-reference.diff, C19-components-of-first.diff, C19-ext-implied-element.diff are applied to /repo',
+        'serialisation steps keep the key order in the model; that pre_process does not depend on the key order '
+        '(pformat sorts keys) is tested on every case, not proved',
         'parameterised types, object classes and ANY DEFINED BY choices are outside the model (the exporter rejects them)',
     ]
     ok = ctx.coq_props()
     ctx.log('proofs checked: %s' % ok)
+    ctx.extra['open'] = ['key-order independence of pre_process (needed for the key-sorting pformat): tested, not proved']
     w = run_witness(ctx, WITNESS)
     ctx.case(('witness',), dict(kind='witness', **WITNESS))
     if w is not None:
         ctx.violation('numeric_enums=True leaks into a later compile of the same dictionary: %r' % (w,),
                       dict(kind='witness', **WITNESS))
-    total = 70 if ctx.quick else 600
+    total = 70 if ctx.quick else 2000
     done = 0
     while done < total:
         n = min(50, total - done)
